@@ -91,11 +91,15 @@ def run_one(job):
             return idx, desc, "killed", {}
         res = {}
         env2 = dict(os.environ, VERIF_NO_EVIDENCE="1", VERIF_OUT=d)
-        for pid in CHECKS:
-            c = subprocess.run([os.path.join(VERIF, "check"), pid, "--repo", d], capture_output=True, text=True, env=env2)
-            if c.returncode != 0:
-                keys = [l.strip()[5:] for l in c.stdout.splitlines() if l.strip().startswith("key:")][:3]
-                res[pid] = (c.returncode, keys or [l for l in c.stdout.splitlines() if "ANALYSIS-ERROR" in l][:1])
+        c = subprocess.run(["/venv/bin/python", "-B", "-m", "sa.allprops", d], capture_output=True, text=True, env=env2, cwd=VERIF)
+        cur, rc = None, 0
+        for l in c.stdout.splitlines():
+            if l.startswith("== "):
+                cur, rc = l.split()[1], int(l.split("rc=")[1])
+                if rc:
+                    res[cur] = (rc, [])
+            elif cur in res and (l.strip().startswith("key:") or "ANALYSIS-ERROR" in l) and len(res[cur][1]) < 3:
+                res[cur][1].append(l.strip()[5:] if l.strip().startswith("key:") else l)
         return idx, desc, "survives", res
     finally:
         shutil.rmtree(d, ignore_errors=True)
